@@ -43,6 +43,10 @@ def gen_sequence(ctx, maxlen):
     r = ctx.rng
     C, D = int(r.integers(1, 4)), int(r.integers(1, 4))
     scale = float(10.0 ** r.choice([-1, 0, 0, 1]))
+    if r.random() < 0.15:
+        # many features in a small (or large) unit: each variance is an ordinary number, their product is not representable
+        D = int(r.integers(20, 41))
+        scale = float(10.0 ** r.choice([-8, 7]))
     w, m, v, _ = gen.gmm_params(r, C, D, scales=np.ones(D) * scale)
     is_map = bool(r.random() < 0.35)
     # an ML machine usually starts with means and variances assigned; sometimes only the means are (fit then supplies unit variances)
@@ -67,9 +71,12 @@ def gen_sequence(ctx, maxlen):
             sw = tuple(bool(b) for b in r.integers(0, 2, 3))
             ops.append(("step", sw, int(r.integers(3, 15)), float(10 ** r.uniform(-12, -1))))
         else:
-            ops.append(("clone", str(r.choice(["deepcopy", "pickle", "hdf5", "hdf5_load", "ubm_inplace"]))))
+            ops.append(("clone", str(r.choice(["deepcopy", "pickle", "hdf5", "hdf5_load", "ubm_inplace", "sibling_inplace"]))))
     probes = r.normal(0, 4, (3, D)) * scale
-    return dict(C=C, D=D, w0=w, ubm=(w, m, v) if is_map else None, ops=ops, probes=probes, scale=scale,
+    default_w = bool(not is_map and r.random() < 0.3)
+    if default_w:  # the machine is created without weights: it starts from the default (uniform) ones
+        w = np.full(C, 1.0 / C)
+    return dict(default_w=default_w, C=C, D=D, w0=w, ubm=(w, m, v) if is_map else None, ops=ops, probes=probes, scale=scale,
                 init_thr=gen.EPS, seed=int(r.integers(0, 2**31)))
 
 
@@ -90,7 +97,7 @@ def run_impl(seq):
         init_ops = [{"k": "t", "val": core.enc(uthr)}, {"k": "m", "val": core.enc(um)}, {"k": "v", "val": core.enc(uv)}, {"k": "w", "val": core.enc(uw)}]
     else:
         ubm = None
-        g = GMMMachine(C, weights=np.array(seq["w0"]))
+        g = GMMMachine(C) if seq.get("default_w") else GMMMachine(C, weights=np.array(seq["w0"]))
         init_ops = []
     tmp = os.path.join(core.WORK, "c17.h5")
     os.makedirs(core.WORK, exist_ok=True)
@@ -176,6 +183,12 @@ def run_impl(seq):
                     g.ubm.weights /= g.ubm.weights.sum()
                 else:
                     g = copy.deepcopy(g)
+            elif how == "sibling_inplace":
+                # another machine of the same size, created with default settings, is re-weighted in place by its owner (public
+                # property, augmented assignment): no business of this machine
+                sib = GMMMachine(C)
+                sib.weights *= rng.uniform(0.5, 2.0, C)
+                sib.weights /= sib.weights.sum()
             elif how == "deepcopy":
                 g = copy.deepcopy(g)
             elif how == "pickle":
@@ -220,9 +233,9 @@ def nontrivial(seq):
     return ("step" in ks or "clone" in ks)
 
 
-def correspondence(ctx):
+def correspondence(ctx, n=None):
     bad = []
-    n = ctx.budget(60, 600)
+    n = n or ctx.budget(60, 600)
     maxlen = 12 if ctx.tier == "quick" else 40
     seqs = [gen_sequence(ctx, maxlen) for _ in range(n)]
     runs = [run_impl(s) for s in seqs]
